@@ -112,28 +112,26 @@ func (c *Config) getCacheTTL(resp *TokenInfo) time.Duration {
 	// we cache by default using the settings in the token endpoint response (if available)
 	// or if ttl has been configured. Latter overwrites the settings in the token endpoint response
 	// if it is shorter than the ttl in the token endpoint response
-	tokenEndpointResponseTTL := x.IfThenElseExec(!resp.Expiry.IsZero(),
-		func() time.Duration {
-			expiresIn := time.Until(resp.Expiry) - timeLeeway*time.Second
-
-			return x.IfThenElse(expiresIn > 0, expiresIn, 0)
-		},
-		func() time.Duration { return 0 })
-
 	configuredTTL := x.IfThenElseExec(c.TTL != nil,
 		func() time.Duration { return *c.TTL },
 		func() time.Duration { return 0 })
 
-	switch {
-	case configuredTTL == 0 && tokenEndpointResponseTTL == 0:
-		return 0
-	case configuredTTL == 0 && tokenEndpointResponseTTL != 0:
-		return tokenEndpointResponseTTL
-	case configuredTTL != 0 && tokenEndpointResponseTTL == 0:
+	if resp.Expiry.IsZero() {
+		// no expiry information available. Only the configured ttl (if any) can be used
 		return configuredTTL
-	default:
-		return min(configuredTTL, tokenEndpointResponseTTL)
 	}
+
+	expiresIn := time.Until(resp.Expiry) - timeLeeway*time.Second
+	if expiresIn <= 0 {
+		// the token expires within the leeway. It must not be cached
+		return 0
+	}
+
+	if configuredTTL == 0 {
+		return expiresIn
+	}
+
+	return min(configuredTTL, expiresIn)
 }
 
 func (c *Config) isCacheEnabled() bool {
